@@ -247,6 +247,10 @@ impl World {
                 if !self.model.contains_key(n) { return Step::Pruned; }
                 match self.db().get_region(n).unwrap().flush() {
                     Ok(_) => Step::Ok,
+                    // a region that never held data and was never renamed has no metadata slot to flush yet: the library refuses
+                    // (RegionMetadataUnwritten) and C01 does not ask such a region to survive; the state contracts after this step
+                    // still check that the refusal changed nothing
+                    Err(rawdb::Error::RegionMetadataUnwritten) if !self.persistable.contains(n) => Step::Ok,
                     Err(e) => Step::Fail("C01.flush".into(), format!("region flush failed: {e}")),
                 }
             }
